@@ -4,6 +4,8 @@ package main
 // Explorer: all token words of length <= N over a context-sensitive token alphabet.
 
 import (
+	"fmt"
+	"os"
 	"strings"
 
 	"github.com/evanw/esbuild/pkg/api"
@@ -233,7 +235,7 @@ func runC13(c *Check) {
 	} else {
 		maxLen = 4
 	}
-	c.Rule = "all token words of length<=N over the C13 token alphabet (joined by single spaces); each word: esbuild accept/reject vs V8 (script+module goal), output validity in V8 under 5 configurations, T(T(x))==T(x); distinct = distinct esbuild outputs"
+	c.Rule = "all token words of length<=N over the C13 token alphabet (joined by single spaces), plus every depth-3 operator chain over a 14-operator (thorough 24) alphabet in 7 (thorough 14) grammar-sensitive statement contexts (for-init, for-var-init, for-of/in heads, arrow bodies, new callee, class heritage, labels, exponent base, statement start); each word: esbuild accept/reject vs V8 (script+module goal), output validity in V8 under 5 configurations, T(T(x))==T(x); distinct = distinct esbuild outputs"
 	c.Assump = []string{"V8 (Node 20) is the reference grammar", "inputs V8 rejects but esbuild accepts constrain only the fixed-point oracle (esbuild documents that it is not a validator)"}
 	pool := NewNodePool("")
 	defer pool.Close()
@@ -257,6 +259,40 @@ func runC13(c *Check) {
 		})
 		total += done
 		c.Set("words_len_"+string(rune('0'+n)), map[string]interface{}{"batches_done": done, "batches": nb, "size": size})
+	}
+	// ---- structured programs: the places where the printer must decide on parentheses, spaces and "in"/"of"/
+	// "let"/"async" look-alikes depend on the surrounding production, which three-token words cannot reach.
+	// Every depth-3 operator chain over a 20-operator alphabet in 14 grammar-sensitive contexts: accepted, output
+	// valid in V8 under every configuration, fixed point. (Behaviour of the same programs is C01's business.)
+	{
+		allOps := concatOps(xAllOps, xAsyncGen, xGen)
+		ops := pickOps(allOps, "$0, $1", "#0 = $0", "$0 ? $1 : $2", "$0 ?? $1", "$0 || $1", "$0 in $1", "$0 + $1", "$0 ** $1", "-$0", "typeof $0", "$0($1)", "new $0", "$0.x", "$0?.x", "$0`t`", "() => $0",
+			"function() { return $0 }", "{x: $0}", "class {}", "async () => $0", "{x: #0} = $0", "$0[$1]", "(async)($0)", "[$0, $1]")
+		ctxNames := []string{"stmt", "for-init", "for-var-init", "for-var-init2", "for-of", "for-in", "for-of-lhs", "arrow-body-noparen", "new-callee", "class-extends", "label", "stmt-after-expr", "exponent-left", "call-callee"}
+		if c.Tier == "quick" {
+			ctxNames = []string{"stmt", "for-init", "for-var-init", "for-of", "arrow-body-noparen", "new-callee", "class-extends"}
+			ops = pickOps(allOps, "$0, $1", "#0 = $0", "$0 ? $1 : $2", "$0 || $1", "$0 in $1", "-$0", "$0($1)", "new $0", "$0.x", "() => $0", "{x: $0}", "class {}", "async () => $0", "$0`t`")
+		}
+		sp := &xspace{}
+		for _, cx := range pickCtx(ctxNames...) {
+			// three parenthesisation modes: full, bare top level and arrow bodies, none (inputs V8 rejects are skipped)
+			sp.segs = append(sp.segs, segDepth3(cx, ops), segDepth3Parens(cx, ops, 1), segDepth3Parens(cx, ops, 2))
+		}
+		size := sp.Size()
+		const B = 256
+		nb := (size + B - 1) / B
+		done := c.ForEach(nb, func(w int, bi uint64) {
+			var ins []string
+			for i := bi * B; i < (bi+1)*B && i < size; i++ {
+				xc, _ := sp.At(i)
+				if pat := os.Getenv("VERIF_C13_PRINT"); pat != "" && strings.Contains(xc.code, pat) {
+					fmt.Fprintln(os.Stderr, "STRUCTURED:", strings.ReplaceAll(xc.code, "\n", " "))
+				}
+				ins = append(ins, xc.code)
+			}
+			c13CheckBatch(c, pool.Get(w), ins, nil, "structured")
+		})
+		c.Set("structured_programs", map[string]interface{}{"batches_done": done, "batches": nb, "size": size, "contexts": ctxNames})
 	}
 	c.Set("alphabet_size", len(alpha))
 	c.Set("max_word_length", maxLen)
